@@ -434,3 +434,63 @@ Lemma run_phases_rm_barrier : forall rms st p pre post,
   l_events (load (remove_keys (hd [] rms) st) p) = pre ++ EBar :: post ->
   forall t, In (ETask t) pre -> stored (remove_keys (hd [] rms) st) (tid_of t) = true.
 Proof. intros rms st p pre post. apply barrier_passed_all_stored. Qed.
+
+(* ------------------------------------------------------------------ the collapsed compound keeps its arguments *)
+Lemma collapsed_keeps_arguments : forall st h ca body k, stored st h = true ->
+  In (probe h ca) (l_tasks (load st (Compound h ca body k))) /\
+  tid_of (probe h ca) = h /\ targs (probe h ca) = ca /\ atids_list (targs (probe h ca)) = atids_list ca.
+Proof.
+  intros st h ca body k Hs. split; [|repeat split].
+  rewrite load_tasks. apply -> in_rev. simpl. rewrite Hs. apply load_from_tasks_incl. now left.
+Qed.
+
+Lemma inv_fold_incl : forall sel ts bad x, In x bad -> In x (fold_left (inv_step sel) ts bad).
+Proof.
+  intros sel. induction ts as [|t r IH]; intros bad x Hx; simpl; [exact Hx|]. apply IH.
+  unfold inv_step. destruct (sel (tid_of t) || _); [now right | exact Hx].
+Qed.
+
+Lemma mem_tid_In : forall t l, mem_tid t l = true <-> In t l.
+Proof.
+  intros t l. unfold mem_tid. rewrite existsb_exists. split.
+  - intros [x [Hx E]]. apply Pos.eqb_eq in E. now subst.
+  - intros H. exists t. split; [exact H | apply Pos.eqb_refl].
+Qed.
+
+(* a loaded task with an invalidated task under its arguments is invalidated *)
+Lemma invalid_ids_dependent : forall sel pre t post d,
+  In d (atids_list (targs t)) -> In d (invalid_ids sel pre) -> In (tid_of t) (invalid_ids sel (pre ++ t :: post)).
+Proof.
+  intros sel pre t post d Hd Hb. unfold invalid_ids in *. rewrite fold_left_app. simpl. apply inv_fold_incl.
+  unfold inv_step at 1.
+  assert (E : existsb (fun d0 => mem_tid d0 (fold_left (inv_step sel) pre [])) (atids_list (targs t)) = true).
+  { apply existsb_exists. exists d. split; [exact Hd | now apply mem_tid_In]. }
+  rewrite E, orb_true_r. now left.
+Qed.
+
+Lemma invalid_ids_selected : forall sel pre t post, sel (tid_of t) = true -> In (tid_of t) (invalid_ids sel (pre ++ t :: post)).
+Proof.
+  intros sel pre t post Hs. unfold invalid_ids. rewrite fold_left_app. simpl. apply inv_fold_incl.
+  unfold inv_step at 1. rewrite Hs. now left.
+Qed.
+
+Lemma lookup_remove_keys_in : forall ks st k, In k ks -> lookup (remove_keys ks st) k = None.
+Proof.
+  intros ks st k Hk. unfold remove_keys. induction st as [|[a v] r IH]; [reflexivity|]. simpl.
+  destruct (existsb (Pos.eqb a) ks) eqn:E; simpl.
+  - exact IH.
+  - destruct (Pos.eqb_spec a k) as [->|Hn]; [|exact IH].
+    exfalso. assert (X : existsb (Pos.eqb k) ks = true) by (apply existsb_exists; exists k; split; [exact Hk | apply Pos.eqb_refl]).
+    congruence.
+Qed.
+
+(* jug invalidate reaches the collapsed compound through the arguments of its call: if a task under those arguments
+   is invalidated, the compound's stored value goes too *)
+Lemma invalidate_reaches_collapsed : forall sel st p pre post h ca d,
+  l_tasks (load st p) = pre ++ probe h ca :: post ->
+  In d (atids_list ca) -> In d (invalid_ids sel pre) ->
+  lookup (invalidate sel st p) h = None.
+Proof.
+  intros sel st p pre post h ca d E Hd Hb. unfold invalidate. apply lookup_remove_keys_in. rewrite E.
+  change h with (tid_of (probe h ca)). apply (invalid_ids_dependent sel pre (probe h ca) post d); assumption.
+Qed.
